@@ -47,12 +47,24 @@ def main():
     mod = importlib.import_module(f"checks.{a.pid}")
     if a.replay:
         payload = json.load(open(a.replay))
+        if str(payload.get("key", "")).startswith("env-"):
+            from vlib import envprobe
+            res, diffs, errs = envprobe.run(a.pid, os.path.join(REPO, "src"))
+            hit = [d for d in diffs if d[0] == payload["input"]["mode"] and d[1] == payload["input"]["battery_entry"]]
+            for d in hit:
+                print(json.dumps(dict(mode=d[0], battery_entry=d[1], default=envprobe.summarize(d[2]), in_this_mode=envprobe.summarize(d[3]))))
+            sys.exit(1 if hit or errs else 0)
         sys.exit(mod.replay(payload))
     ctx = core.Ctx(a.pid, a.tier, seed)
     import warnings
     warnings.filterwarnings("ignore", category=RuntimeWarning)   # numpy floating-point warnings of probed edge inputs: checked by value, not by message
     try:
         mod.run(ctx)
+        # none of the properties is conditional on the interpreter mode or on numpy's error state: a fixed battery of calls per
+        # property is repeated in child interpreters (python -O, np.seterr(...)) and compared with the default one
+        from vlib import envprobe
+        if a.pid in envprobe.BATTERIES:
+            envprobe.check(ctx, a.pid, os.path.join(REPO, "src"))
     except Exception as e:  # a crash of the harness is a broken check, never a pass
         import traceback
         traceback.print_exc()
